@@ -196,21 +196,6 @@ Proof.
   rb; intros Hsome; inversion Hsome; subst; cbn; lra.
 Qed.
 
-(* ---------- the SQ defect ---------- *)
-Lemma sq_positive_g_refuted :
-  exists prm c p,
-    convert_card RS M_SQ prm = Ok c /\
-    mcnp_surface RS M_SQ prm = Some (mkMsurf (fM_sq RS (-1) (-1) (-1) 0 0 0 1 0 0 0) None) /\
-    0 < fM_sq RS (-1) (-1) (-1) 0 0 0 1 0 0 0 p /\ neg_coll c p.
-Proof.
-  destruct (locus_flipped_regions _ _ (sq_positive_g_flipped (-1) (-1) (-1) 0 0 0 1 0 0 0 ltac:(lra)))
-    as (c & Hc & Hreg).
-  exists [-1; -1; -1; 0; 0; 0; 1; 0; 0; 0], c, (0, 0, 0).
-  split; [exact Hc|]. split; [reflexivity|].
-  assert (Hv : 0 < fM_sq RS (-1) (-1) (-1) 0 0 0 1 0 0 0 (0, 0, 0)) by (cbn; unfold ssq; cbn; lra).
-  split; [exact Hv|]. apply Hreg. exact Hv.
-Qed.
-
 (* non-vacuity of the guard of p3_locus_sense *)
 Lemma p3_guard_example : p3_guard (p3_normal RS (0, 0, 1) (1, 0, 1) (0, 1, 1)) (0, 0, 1).
 Proof.
@@ -291,31 +276,3 @@ Proof.
   intros [[qx qy] qz]. rewrite Hq. cbn. ring.
 Qed.
 
-(* the same MCNP surface written as SQ (with G > 0) and as GQ (the expanded
-   coefficients) has the same equation, yet the two cards are converted into
-   opposite regions: whatever the reading of QUAD, one of the two is wrong *)
-Lemma sq_gq_inconsistent A B C D E F G x0 y0 z0 :
-  0 < G ->
-  exists K,
-    (forall p, fM_gq RS A B C 0 0 0 (2 * D - 2 * A * x0) (2 * E - 2 * B * y0) (2 * F - 2 * C * z0) K p
-               = fM_sq RS A B C D E F G x0 y0 z0 p) /\
-    exists csq cgq,
-      convert_card RS M_SQ [A; B; C; D; E; F; G; x0; y0; z0] = Ok csq /\
-      convert_card RS M_GQ [A; B; C; 0; 0; 0; 2 * D - 2 * A * x0; 2 * E - 2 * B * y0;
-                            2 * F - 2 * C * z0; K] = Ok cgq /\
-      forall p, (neg_coll csq p <-> pos_coll cgq p) /\ (pos_coll csq p <-> neg_coll cgq p).
-Proof.
-  intros HG.
-  set (K := A * (x0 * x0) + B * (y0 * y0) + C * (z0 * z0) - 2 * (D * x0 + E * y0 + F * z0) + G).
-  exists K. split.
-  { intros [[x y] z]. unfold K. cbn. unfold ssq. cbn. ring. }
-  destruct (locus_flipped_regions _ _ (sq_positive_g_flipped A B C D E F G x0 y0 z0 HG)) as (csq & Hsq & Rsq).
-  destruct (locus_sense_regions _ _ (gq_locus_sense A B C 0 0 0 (2 * D - 2 * A * x0) (2 * E - 2 * B * y0)
-                                                    (2 * F - 2 * C * z0) K)) as (cgq & Hgq & Rgq).
-  exists csq, cgq. split; [exact Hsq|]. split; [exact Hgq|]. intros p.
-  destruct (Rsq p) as (N1 & P1). destruct (Rgq p) as (N2 & P2 & _).
-  assert (Ef : fM_gq RS A B C 0 0 0 (2 * D - 2 * A * x0) (2 * E - 2 * B * y0) (2 * F - 2 * C * z0) K p
-               = fM_sq RS A B C D E F G x0 y0 z0 p).
-  { destruct p as [[x y] z]. unfold K. cbn. unfold ssq. cbn. ring. }
-  rewrite Ef in N2, P2. rewrite N1, P1, N2, P2. tauto.
-Qed.
